@@ -692,6 +692,7 @@ class AsyncClientRequestFraming(ClientRequestFraming):
             return vbytes(self.chunks(payload.e, as_int(ex_, st, size)))
 
         def post(ex_, st, args, kwargs):
+            st.ghost['c:post_kwargs'] = dict(kwargs)
             st.ghost['c:request'] = (st.box(kwargs['data']), kwargs['headers'], st)
             return Raise(ex_.mk_exc('ClientError', 'request handed over (end of the part under contract)'))
         A = 'sdc11073.pysoap.soapclient_async'
